@@ -682,6 +682,7 @@ class AffInterp:
     _idx_used = None
     _idx_path = None
     num_islinear = 0          # linearity of the reconstruction object of the abstract run
+    rhs_owned = False         # C05 ("for every right-hand side"): providers may re-use their output buffers
 
     def _idx_choice(self, cond, st, func):
         if self._idx_used is None:
@@ -1085,9 +1086,10 @@ class AffInterp:
             # the arrays a right-hand side returns belong to it: a provider that writes its result
             # into preallocated buffers overwrites them at its next evaluation.  The very objects
             # returned last time (not their copies) therefore become stale now.
-            for q, old in enumerate(getattr(self, "_rhs_owned", [])):
-                old.form = {("STALE", q): {0: Fraction(1)}}
-                old.kinds = set()
+            if self.rhs_owned:
+                for q, old in enumerate(getattr(self, "_rhs_owned", [])):
+                    old.form = {("STALE", q): {0: Fraction(1)}}
+                    old.kinds = set()
             out = [AArr({("K", j, q): {0: Fraction(1)}}) for q in range(NEQ)]
             self._rhs_owned = out
             return out
@@ -1240,10 +1242,11 @@ def dt_arg():
     return S({1: Fraction(1)}, {"arr"})
 
 
-def run_step(project, cls, nsteps=1):
+def run_step(project, cls, nsteps=1, rhs_owned=False):
     """construct an abstract integrator of class `cls`, run `nsteps` steps (each on a fresh
     initial field) and return [(field_after, trace_slice)] plus the interpreter"""
     ai = AffInterp(project, cls)
+    ai.rhs_owned = rhs_owned
     ai.construct()
     out = []
     for n in range(nsteps):
